@@ -30,10 +30,12 @@ structure Cfg where
   subLen      : Bool   -- 05: window-size sub-negotiation needs 4 payload bytes
   findSend    : Bool   -- 06: `send/endSession` use `find`, not `map::at`
   cancelExit  : Bool   -- 07: `~Terminal` cancels the exit tasks that are still queued
+  cursorReset : Bool   -- 08: `!n`/`!!` move the cursor to the end of the line they swap in
+  rerunGuard  : Bool   -- 09: a history line that itself is a history command is refused
 deriving DecidableEq, Repr
 
-def Cfg.fixed : Cfg := ⟨true, true, true, true, true, true, true⟩
-def Cfg.legacy : Cfg := ⟨false, false, false, false, false, false, false⟩
+def Cfg.fixed : Cfg := ⟨true, true, true, true, true, true, true, true, true⟩
+def Cfg.legacy : Cfg := ⟨false, false, false, false, false, false, false, false, false⟩
 
 /-! ## strings -/
 
@@ -198,6 +200,7 @@ inductive Ev
   | bad (b : Bad)                         -- crash / uncaught exception / invalid access
   | tel (e : TEv)
   | line (s : String)                     -- return values etc.
+  | entered                               -- ghost: an Enter key is being handled (typed, or fed by a command handler)
   | exec (l : Str)                        -- ghost: `execute()` entered with this curr_input
   | stored (l : Str)                      -- ghost: this line was pushed to the history
   | sched                                 -- ghost: an exit task was queued
@@ -210,9 +213,16 @@ def Ev.isBad : Ev → Bool
 
 /-! ## nodes -/
 
+/-- what a command handler does, synchronously, to the session it was called from (the harness's
+scripted function nodes): send text, feed bytes into the same session through `onRecvString`
+(re-entrant use: the outer Enter is still being executed), end the session -/
+inductive Act
+  | send (bs : Str) | feed (bs : Str) | endS
+deriving DecidableEq, Repr
+
 inductive Node
   | dir (children : List (Str × Nat))     -- sorted by name
-  | func
+  | func (script : List Act)
 deriving DecidableEq, Repr
 
 abbrev Nodes := List (Option Node)
@@ -267,7 +277,7 @@ def treeLevel (ns : Nodes) : Nat → List Nat → Str → List (Str × Nat) → 
       let body : Option Str :=
         match nodeAt ns tok with
         | none => some (markX ++ crlf)
-        | some .func => some crlf
+        | some (.func _) => some crlf
         | some (.dir ch) =>
           if tok = 0 ∨ anc.contains tok then some (markR ++ crlf)
           else if ch.isEmpty then some crlf
@@ -378,12 +388,12 @@ def lsCmd (ns : Nodes) (s : St) (args : List Str) : Str :=
   | some np =>
     match nodeAt ns (topOf np) with
     | none => errQ ++ p ++ qDeleted
-    | some .func => p ++ isFunction
+    | some (.func _) => p ++ isFunction
     | some (.dir ch) =>
       (ch.map (fun (c : Str × Nat) => dash ++ c.1 ++ (match nodeAt ns c.2 with
           | none => markX
           | some (.dir _) => slash
-          | some .func => []) ++ crlf)).flatten ++ crlf
+          | some (.func _) => []) ++ crlf)).flatten ++ crlf
 
 /-- `executeCdCmd`: the new current path and the text sent -/
 def cdCmd (ns : Nodes) (s : St) (args : List Str) : Path × Str :=
@@ -393,7 +403,7 @@ def cdCmd (ns : Nodes) (s : St) (args : List Str) : Path × Str :=
   | some np =>
     match nodeAt ns (topOf np) with
     | none => (s.path, errQ ++ p ++ qDeleted)
-    | some .func => (s.path, errQ ++ p ++ qNotDir)
+    | some (.func _) => (s.path, errQ ++ p ++ qNotDir)
     | some (.dir _) => (np, [])
 
 def helpCmd (ns : Nodes) (s : St) (args : List Str) : Str :=
@@ -420,7 +430,7 @@ def treeCmd (ns : Nodes) (s : St) (args : List Str) : Str × Bool :=
   | some np =>
     match nodeAt ns (topOf np) with
     | none => (lastName np ++ nodeDeleted, true)
-    | some .func => (lastName np ++ isAFunction, true)
+    | some (.func _) => (lastName np ++ isAFunction, true)
     | some (.dir ch) =>
       match treeLevel ns (ns.length + 1) [] [] ch with
       | some out => (out, true)
@@ -429,15 +439,42 @@ def treeCmd (ns : Nodes) (s : St) (args : List Str) : Str × Bool :=
 def historyCmd (s : St) : Str :=
   ((List.range s.hist.length).zip s.hist).map (fun (c : Nat × Str) => setw2 c.1 ++ twoSp ++ c.2 ++ crlf) |>.flatten
 
-/-- `executeUserCmd`: the new current path and the events -/
-def userCmd (ns : Nodes) (s : St) (args : List Str) (cmd : Str) : Path × List Ev :=
+/-- how a handler feeds bytes into its own session: `onRecvString` one nesting level further in
+(`none`: the nesting budget of the harness is used up, handlers only record their arguments) -/
+abbrev Feed := Option (St → Str → St × List Ev)
+
+/-- a handler's script, run on the session as it is at that moment — in the middle of `execute()` -/
+def runScript (feed : Feed) : St → List Act → St × List Ev
+  | s, [] => (s, [])
+  | s, .send bs :: r =>
+    let y := runScript feed s r
+    (y.1, .tx .out bs :: y.2)
+  | s, .feed bs :: r =>
+    (match feed with
+     | some f =>
+       let x := f s bs
+       let y := runScript feed x.1 r
+       (y.1, .tag "nested-feed" :: (x.2 ++ y.2))
+     | none => runScript feed s r)
+  | s, .endS :: r =>
+    let y := runScript feed s r
+    (y.1, .endSess :: y.2)
+
+/-- the harness's handler: the script runs only while the nesting budget lasts -/
+def runHandler (feed : Feed) (s : St) (script : List Act) : St × List Ev :=
+  if feed.isSome then runScript feed s script else (s, [])
+
+/-- `executeUserCmd`: the session afterwards and the events -/
+def userCmd (ns : Nodes) (feed : Feed) (s : St) (args : List Str) (cmd : Str) : St × List Ev :=
   match findNode ns cmd s.path with
-  | none => (s.path, [.tx .out (errQ ++ cmd ++ qNotFound)])
+  | none => (s, [.tx .out (errQ ++ cmd ++ qNotFound)])
   | some np =>
     match nodeAt ns (topOf np) with
-    | none => (s.path, [.tx .out (errQ ++ cmd ++ qDeleted)])
-    | some .func => (s.path, [.probe (topOf np) args, .tx .out (60 :: decBytes (topOf np) ++ 62 :: crlf)])
-    | some (.dir _) => (np, [])
+    | none => (s, [.tx .out (errQ ++ cmd ++ qDeleted)])
+    | some (.func script) =>
+      let r := runHandler feed s script
+      (r.1, .probe (topOf np) args :: (r.2 ++ [.tx .out (60 :: decBytes (topOf np) ++ 62 :: crlf)]))
+    | some (.dir _) => ({ s with path := np }, [])
 
 /-- what a history reference resolves to -/
 inductive Sel
@@ -474,15 +511,18 @@ def selectEntry (cfg : Cfg) (hist : List Str) (arg0 : Str) : Sel :=
          | none => .err [.bad .index])
       else .err [.tag "bang-oob", .tx .out idxRange]
 
-/-- `executeRunHistoryCmd`; `inner` is the recursive `execute(s)` -/
-def runHistory (cfg : Cfg) (inner : St → ExecRes) (s : St) (arg0 : Str) : ExecRes :=
-  match selectEntry cfg s.hist arg0 with
-  | .err evs => (s, evs, false)
-  | .run l echo tag =>
-    let r := inner { s with line := l }
-    (r.1, .tag tag :: ((if echo then [.tx .out (l ++ crlf)] else []) ++ r.2.1), r.2.2)
+/-- `executeRunHistoryCmd`; `inner` is the recursive `execute(s, true)`; `rerun`: the line being
+executed was itself put in by a history command -/
+def runHistory (cfg : Cfg) (inner : St → ExecRes) (rerun : Bool) (s : St) (arg0 : Str) : ExecRes :=
+  if cfg.rerunGuard && rerun then (s, [.tag "bang-recursive", .tx .out recursiveHist], false)
+  else
+    match selectEntry cfg s.hist arg0 with
+    | .err evs => (s, evs, false)
+    | .run l echo tag =>
+      let r := inner { s with line := l, cursor := if cfg.cursorReset then l.length else s.cursor }
+      (r.1, .tag tag :: ((if echo then [.tx .out (l ++ crlf)] else []) ++ r.2.1), r.2.2)
 
-def executeCmd (cfg : Cfg) (ns : Nodes) (inner : St → ExecRes) (s : St) (cmdline : Str) : ExecRes :=
+def executeCmd (cfg : Cfg) (ns : Nodes) (feed : Feed) (inner : St → ExecRes) (rerun : Bool) (s : St) (cmdline : Str) : ExecRes :=
   if cmdline = [] then (s, [.tag "seg-empty"], false)
   else
     match splitCmdline cmdline with
@@ -502,10 +542,10 @@ def executeCmd (cfg : Cfg) (ns : Nodes) (inner : St → ExecRes) (s : St) (cmdli
       else if cmd = cmdTree then
         let r := treeCmd ns s args
         if r.2 then (s, [.tag "cmd-tree", .tx .out r.1], true) else (s, [.bad .recursion], true)
-      else if cmd.head? = some 33 then runHistory cfg inner s cmd
+      else if cmd.head? = some 33 then runHistory cfg inner rerun s cmd
       else
-        let r := userCmd ns s args cmd
-        ({ s with path := r.1 }, .tag "cmd-user" :: r.2, true)
+        let r := userCmd ns feed s args cmd
+        (r.1, .tag "cmd-user" :: r.2, true)
 
 /-- the loop of `execute()` over the `;`-separated command lines (stops at the first `false`) -/
 def runSegs (f : St → Str → ExecRes) : St → List Str → ExecRes
@@ -517,19 +557,23 @@ def runSegs (f : St → Str → ExecRes) : St → List Str → ExecRes
       (r2.1, r.2.1 ++ r2.2.1, r2.2.2)
     else (r.1, r.2.1, false)
 
-/-- `execute(s)`; `fuel` bounds the nesting of `execute → !n → execute` (history entries never
-contain a history reference, so 2 levels always suffice: `C13_total`) -/
-def execute (cfg : Cfg) (ns : Nodes) : Nat → St → ExecRes
-  | 0, s => (s, [.bad .recursion], false)
-  | fuel + 1, s =>
-    let r := runSegs (executeCmd cfg ns (execute cfg ns fuel)) s (splitOn 59 s.line)
+/-- `execute(s, rerun)`; `fuel` bounds the nesting of `execute → !n → execute`: with the guard of
+patch 09 it never exceeds 2; without it a history line `!!` re-runs itself until the stack overflows
+(the fuel then runs out: `Bad.recursion`; a history holds at most 20 lines, so a chain that ends is
+shorter than the fuel) -/
+def execute (cfg : Cfg) (ns : Nodes) (feed : Feed) : Nat → Bool → St → ExecRes
+  | 0, _, s => (s, [.bad .recursion], false)
+  | fuel + 1, rerun, s =>
+    let r := runSegs (executeCmd cfg ns feed (execute cfg ns feed fuel true) rerun) s (splitOn 59 s.line)
     (r.1, .exec s.line :: r.2.1, r.2.2)
 
-def execFuel : Nat := 2
+def execFuel : Nat := 32
 
-def onEnter (cfg : Cfg) (ns : Nodes) (s : St) : St × List Ev :=
-  let pre : List Ev := if s.echo then [.tx .echo crlf] else []
-  let r := execute cfg ns execFuel s
+/-- `onEnterKey`: an Enter fed by a command handler while an outer Enter is being executed is an
+ordinary Enter, processed to completion on the session as it is at that moment -/
+def onEnter (cfg : Cfg) (ns : Nodes) (feed : Feed) (s : St) : St × List Ev :=
+  let pre : List Ev := if s.echo then [.entered, .tx .echo crlf] else [.entered]
+  let r := execute cfg ns feed execFuel false s
   let s1 := r.1
   let (hist', st) : List Str × List Ev :=
     if r.2.2 then
@@ -539,9 +583,9 @@ def onEnter (cfg : Cfg) (ns : Nodes) (s : St) : St × List Ev :=
   let pr : List Ev := if s1.quiet then [] else [.tx .prompt prompt]
   ({ s1 with hist := hist', line := [], cursor := 0, hidx := 0 }, pre ++ r.2.1 ++ st ++ pr)
 
-def onKey (cfg : Cfg) (ns : Nodes) (s : St) : Key → St × List Ev
+def onKey (cfg : Cfg) (ns : Nodes) (feed : Feed) (s : St) : Key → St × List Ev
   | .char c => onChar s c
-  | .enter => onEnter cfg ns s
+  | .enter => onEnter cfg ns feed s
   | .backspace => onBackspace s
   | .tab => (s, [])
   | .up => onUp s
@@ -552,16 +596,22 @@ def onKey (cfg : Cfg) (ns : Nodes) (s : St) : Key → St × List Ev
   | .endKey => onEnd s
   | .delete => onDelete s
 
-def runKeys (cfg : Cfg) (ns : Nodes) : St → List Key → St × List Ev
+def runKeys (cfg : Cfg) (ns : Nodes) (feed : Feed) : St → List Key → St × List Ev
   | s, [] => (s, [])
   | s, k :: ks =>
-    let r := onKey cfg ns s k
-    let r2 := runKeys cfg ns r.1 ks
+    let r := onKey cfg ns feed s k
+    let r2 := runKeys cfg ns feed r.1 ks
     (r2.1, r.2 ++ r2.2)
 
-/-- `Terminal::Impl::onRecvString` on a live session -/
-def recvString (cfg : Cfg) (ns : Nodes) (s : St) (bs : Str) : St × List Ev :=
-  runKeys cfg ns s (recvKeys bs)
+/-- `Terminal::Impl::onRecvString` on a live session, with `d` levels of handler nesting left -/
+def recvStringD (cfg : Cfg) (ns : Nodes) : Nat → St → Str → St × List Ev
+  | 0, s, bs => runKeys cfg ns none s (recvKeys bs)
+  | d + 1, s, bs => runKeys cfg ns (some (recvStringD cfg ns d)) s (recvKeys bs)
+
+/-- the feed a handler gets when `d` levels are left -/
+def feedAt (cfg : Cfg) (ns : Nodes) : Nat → Feed
+  | 0 => none
+  | d + 1 => some (recvStringD cfg ns d)
 
 /-! ## telnet / raw TCP front ends (service/telnetd.cpp, service/tcp_rpc.cpp) -/
 
@@ -672,6 +722,7 @@ structure Slot where
   gen : Nat := 0
   sess : Option St := none  -- the live SessionContext, if any
   pending : Str := []       -- telnet: received but not yet consumed bytes
+  ending : Bool := false    -- telnet / raw TCP: a handler called endSession(): the disconnect task is queued
 deriving DecidableEq, Repr
 
 inductive Kind | direct | tel | rpc | stdio
@@ -685,6 +736,8 @@ structure World where
   slots : List Slot := List.replicate nSlots {}
   cur : Nat := 0                      -- the selected direct slot
   exits : List (Nat × Nat) := []      -- exit tasks waiting in the loop's run-next queue: (slot, gen)
+  depth : Nat := 2                    -- harness setting: how deep handlers may nest feeds into their session
+  frontEnd : Bool := false            -- a Telnetd/TcpRpc endSession task queued by a handler waits for the next pass
   tel : FrontSt := {}                 -- world B
   rpc : FrontSt := {}
 deriving DecidableEq, Repr
@@ -693,10 +746,10 @@ def World.slot (w : World) (k : Nat) : Slot := w.slots.getD k {}
 def World.setSlot (w : World) (k : Nat) (x : Slot) : World := { w with slots := w.slots.set k x }
 
 inductive Op
-  | sel (k : Nat) | openS (o : Nat) | recv (bs : Str) | pass | teardown | opt (n : Nat) | winsz (w h : Nat) | close
+  | sel (k : Nat) | depth (n : Nat) | openS (o : Nat) | recv (bs : Str) | pass | teardown | opt (n : Nat) | winsz (w h : Nat) | close
   | xconn (k : Nat) | xrecv (k : Nat) (bs : Str) | xdisc (k : Nat)
   | sstart | srecv (bs : Str) | sstop
-  | mkdir | mkfunc | mount (p c : Nat) (name : Str) | umount (p : Nat) (name : Str) | rmnode (i : Nat)
+  | mkdir | mkfunc (script : List Act) | mount (p c : Nat) (name : Str) | umount (p : Nat) (name : Str) | rmnode (i : Nat)
   | split (bs : Str)
   | front (isTel : Bool) (f : FrontOp)
 deriving DecidableEq, Repr
@@ -710,8 +763,8 @@ def Slot.has (x : Slot) (g : Nat) : Bool := x.gen = g && x.sess.isSome
 def exitSlot (k : Nat) (x : Slot) : Slot × List Ev :=
   match kindOf k with
   | .direct => ({ x with sess := none }, [.slot k, .endSess])
-  | .tel => ({ x with sess := none, fstate := 2, pending := [] }, [.slot k, .closed])
-  | .rpc => ({ x with sess := none, fstate := 2, pending := [] }, [.slot k, .closed])
+  | .tel => ({ x with sess := none, fstate := 2, pending := [], ending := false }, [.slot k, .closed])
+  | .rpc => ({ x with sess := none, fstate := 2, pending := [], ending := false }, [.slot k, .closed])
   | .stdio => ({ x with sess := none, fstate := 2 }, [])
 
 /-- the queued exit tasks run, in order (one drained loop pass) -/
@@ -738,42 +791,72 @@ def beginEvs (s : St) : List Ev :=
 def telnetHello : Str := [255, 254, 1, 255, 253, 31, 255, 253, 32, 255, 251, 1, 255, 251, 3]
 
 /-- what the telnet framing loop produced is handed to the terminal session, in order -/
-def applyTel (cfg : Cfg) (ns : Nodes) : Option St → List Ev → Option St × List Ev
+def applyTel (cfg : Cfg) (ns : Nodes) (d : Nat) : Option St → List Ev → Option St × List Ev
   | s, [] => (s, [])
-  | s, .tel (.str d) :: r =>
+  | s, .tel (.str bs) :: r =>
     (match s with
      | some st =>
-       let x := recvString cfg ns st d
-       let y := applyTel cfg ns (some x.1) r
+       let x := recvStringD cfg ns d st bs
+       let y := applyTel cfg ns d (some x.1) r
        (y.1, x.2 ++ y.2)
-     | none => applyTel cfg ns none r)
-  | s, .tel (.setopt o) :: r => applyTel cfg ns (s.map fun st => { st with opts := o }) r
-  | s, .tel (.win _ _) :: r => applyTel cfg ns s r
+     | none => applyTel cfg ns d none r)
+  | s, .tel (.setopt o) :: r => applyTel cfg ns d (s.map fun st => { st with opts := o }) r
+  | s, .tel (.win _ _) :: r => applyTel cfg ns d s r
   | s, .tel (.reply bs) :: r =>
-    let y := applyTel cfg ns s r
+    let y := applyTel cfg ns d s r
     (y.1, .tx .out bs :: y.2)
   | s, e :: r =>
-    let y := applyTel cfg ns s r
+    let y := applyTel cfg ns d s r
     (y.1, e :: y.2)
 
-/-- a drained loop pass: all queued exit tasks run -/
+/-- the disconnect tasks queued by handlers' `endSession()` run (after the exit tasks of the pass) -/
+def closeEnding : List Nat → List Slot → List Slot × List Ev
+  | [], sl => (sl, [])
+  | k :: ks, sl =>
+    let x := sl.getD k {}
+    if x.ending then
+      if x.fstate = 1 then
+        let r := closeEnding ks (sl.set k { x with ending := false, fstate := 2, sess := none, pending := [] })
+        (r.1, .slot k :: .closed :: r.2)
+      else closeEnding ks (sl.set k { x with ending := false })
+    else closeEnding ks sl
+
+/-- a drained loop pass: all queued tasks run -/
 def doPass (cfg : Cfg) (w : World) : World × List Ev :=
   let r := runExits cfg w.exits w.slots
-  ({ w with slots := r.1, exits := [] }, r.2)
+  let c := closeEnding [4, 5, 6] r.1
+  ({ w with slots := c.1, exits := [], frontEnd := false }, r.2 ++ c.2)
 
-/-- bytes for the session of slot `k` (already framed); queues the exit tasks it schedules -/
+def isEndSess (e : Ev) : Bool := e = .endSess
+
+/-- the session of slot `k` has processed a delivery: store its state, queue the exit tasks it
+scheduled, and carry out what a handler's `endSession()` means for this kind of connection -/
+def finishSlot (w : World) (k : Nat) (x : Slot) (s' : Option St) (evs : List Ev) : World × List Ev :=
+  let ended := evs.any isEndSess
+  let exits' := w.exits ++ List.replicate (countSched evs) (k, x.gen)
+  match kindOf k with
+  | .direct =>      -- the recording connection just notes the call
+    ({ w.setSlot k { x with sess := s' } with exits := exits' }, .slot k :: evs)
+  | .stdio =>       -- Stdio::endSession resets its token at once; the next input starts a new session
+    ({ w.setSlot k (if ended then { x with sess := none, fstate := 2 } else { x with sess := s' }) with exits := exits' },
+     .slot k :: evs.filter (fun e => !isEndSess e))
+  | _ =>            -- Telnetd / TcpRpc: the disconnect is a task for the next loop pass
+    ({ w.setSlot k { x with sess := s', ending := x.ending || ended } with exits := exits', frontEnd := w.frontEnd || ended },
+     .slot k :: evs.filter (fun e => !isEndSess e))
+
+/-- bytes for the session of slot `k` (already framed) -/
 def deliver (cfg : Cfg) (w : World) (k : Nat) (bs : Str) : World × List Ev :=
   let x := w.slot k
   match x.sess with
   | none => (w, [])
   | some s =>
-    let r := recvString cfg w.nodes s bs
-    ({ w.setSlot k { x with sess := some r.1 } with exits := w.exits ++ List.replicate (countSched r.2) (k, x.gen) },
-     .slot k :: r.2)
+    let r := recvStringD cfg w.nodes w.depth s bs
+    finishSlot w k x (some r.1) r.2
 
 /-- one op; `none` = `bad-op` -/
 def step (cfg : Cfg) (w : World) : Op → Option (World × List Ev)
   | .sel k => if k < 4 then some ({ w with cur := k }, opLine "sel") else none
+  | .depth n => if n ≤ 3 then some ({ w with depth := n }, opLine "depth") else none
   | .openS o =>
     let x := w.slot w.cur
     if o < 4 ∧ x.fstate = 0 then
@@ -796,8 +879,10 @@ def step (cfg : Cfg) (w : World) : Op → Option (World × List Ev)
   | .teardown =>
     -- services, Terminal, then the Loop are destroyed without draining: the Loop's cleanup runs what is
     -- still queued — an exit task of the destroyed Terminal, unless its destructor cancelled it
-    let evs : List Ev := if w.exits ≠ [] ∧ !cfg.cancelExit then [.bad .useAfterFree] else []
-    some ({ tel := w.tel, rpc := w.rpc }, evs ++ opLine "teardown")
+    if w.frontEnd then none       -- (the harness does not tear down while a Telnetd/TcpRpc task is queued)
+    else
+      let evs : List Ev := if w.exits ≠ [] ∧ !cfg.cancelExit then [.bad .useAfterFree] else []
+      some ({ tel := w.tel, rpc := w.rpc, depth := w.depth }, evs ++ opLine "teardown")
   | .opt n =>
     let x := w.slot w.cur
     if n < 4 ∧ x.fstate ≠ 0 then
@@ -830,15 +915,14 @@ def step (cfg : Cfg) (w : World) : Op → Option (World × List Ev)
       else
         let opts0 := match x.sess with | some s => s.opts | none => 0
         let f := telFeed cfg opts0 x.pending bs
-        let a := applyTel cfg w.nodes x.sess f.1
-        some ({ w.setSlot k { x with sess := a.1, pending := f.2.2 } with
-                exits := w.exits ++ List.replicate (countSched a.2) (k, x.gen) },
-              .slot k :: a.2 ++ opLine ("rest=" ++ toString f.2.2.length))
+        let a := applyTel cfg w.nodes w.depth x.sess f.1
+        let r := finishSlot w k { x with pending := f.2.2 } a.1 a.2
+        some (r.1, r.2 ++ opLine ("rest=" ++ toString f.2.2.length))
     else none
   | .xdisc k =>
     let x := w.slot k
     if 4 ≤ k ∧ k < 7 ∧ x.fstate = 1 then
-      some (w.setSlot k { x with fstate := 2, sess := none, pending := [] }, opLine "disc")
+      some (w.setSlot k { x with fstate := 2, sess := none, pending := [], ending := false }, opLine "disc")
     else none
   | .sstart =>
     let x := w.slot 7
@@ -871,9 +955,9 @@ def step (cfg : Cfg) (w : World) : Op → Option (World × List Ev)
     if w.nodes.length < maxNodes then
       some ({ w with nodes := w.nodes ++ [some (.dir [])] }, opLine ("node=" ++ toString w.nodes.length))
     else none
-  | .mkfunc =>
-    if w.nodes.length < maxNodes then
-      some ({ w with nodes := w.nodes ++ [some .func] }, opLine ("node=" ++ toString w.nodes.length))
+  | .mkfunc script =>
+    if w.nodes.length < maxNodes ∧ script.length ≤ 6 then
+      some ({ w with nodes := w.nodes ++ [some (.func script)] }, opLine ("node=" ++ toString w.nodes.length))
     else none
   | .mount p c name =>
     if p < w.nodes.length ∧ c < w.nodes.length then
